@@ -37,7 +37,7 @@ def run(ctx) -> None:
     r9_in_list(ctx)
     r10_tokens(ctx)
     r11_linking(ctx)
-    r13_parse_when_converted(ctx)
+    r14_parent_links_per_reference(ctx)
     # the condition tree that is converted belongs to this rule alone (shared with C02.R5/C15.R2)
     r.rule("C01.R12", "the cached condition parse is deep-copied before postprocessing writes this rule's detections into it")
     before = len(r.obligations)
@@ -712,22 +712,87 @@ def r11_linking(ctx) -> None:
     r.floor("C01.R11", 9)
 
 
-def r13_parse_when_converted(ctx) -> None:
+def r14_parent_links_per_reference(ctx) -> None:
+    """Grouping of expanded values and the not-equals decision walk the parent chain of a leaf. The chain is written by
+    postprocess(); it is only right if every object that gets a parent link belongs to one reference alone."""
     r, prog = ctx.r, ctx.prog
-    r.rule("C01.R13", "a condition is parsed in the loop iteration that converts it: `.parsed` post-processes the detections shared by all conditions of a rule and re-parents them, so every parent-chain dependent decision (grouping of an expanded value, negated templates) is only right for the condition parsed last — the read of `.parsed` is the argument of convert_condition inside the loop over the conditions, never collected beforehand")
-    f = prog.func("sigma.conversion.base.Backend.convert_rule")
-    reads = [n for n in walk_no_nested(f.node) if isinstance(n, ast.Attribute) and n.attr == "parsed" and isinstance(n.ctx, ast.Load)
-             and any(t.endswith("SigmaCondition") for t in ctx.types.class_names(f.module, n.value))]
-    if not reads:
-        raise AnalysisError(f"{f.qual}: no read of SigmaCondition.parsed found")
-    for n in reads:
-        loc = f"{f.module.relpath}:{n.lineno}"
-        p = prog.parent(n)
-        direct = isinstance(p, ast.Call) and call_name(p) == "self.convert_condition" and p.args and p.args[0] is n
-        in_loop = any(isinstance(a, ast.For) and "parsed_condition" in unparse(a.iter) for a in prog.ancestors(n))
-        in_comp = any(isinstance(a, (ast.ListComp, ast.GeneratorExp, ast.SetComp, ast.DictComp)) for a in prog.ancestors(n))
-        if direct and in_loop and not in_comp:
-            r.ok("C01.R13", f.qual, "convert_condition(cond.parsed, state) inside the loop over the rule's conditions", loc)
-        else:
-            r.violation("C01.R13", f.qual, short(prog.enclosing_stmt(n), 120), "conditions are parsed ahead of their conversion: parsing a later condition re-parents the detection objects an earlier condition's tree refers to, so for a rule with several conditions that share a detection the earlier queries are rendered with the wrong parent chain (lost grouping of an expanded CIDR value, positive instead of negated template)", loc)
-    r.floor("C01.R13", 1)
+    r.rule("C01.R14", "parent links are per reference: every `x.postprocess(detections, parent, …)` in the condition and detection classes is invoked on a fresh object (constructor result, copy.copy/deepcopy, a local bound to one, an argument of the per-parse deep-copied tree) — never on an object taken from the shared detection map or a detection's item list")
+    FRESH_ATTR_CALLS = ("value_linking", "cond_class", "item_linking")
+    n = 0
+
+    def fresh(fi: FuncInfo, e: ast.AST, depth: int = 0) -> Optional[str]:
+        """reason why e denotes an object private to this postprocess run, else None"""
+        if isinstance(e, ast.Call):
+            d = call_name(e)
+            if d in ("copy.copy", "copy.deepcopy", "deepcopy"):
+                return f"{d}(...)"
+            if d == "super":
+                return "super(): the receiver itself (its freshness is the caller's obligation)"
+            if isinstance(e.func, ast.Call) and call_name(e.func) == "cast":
+                return "instance of a class object (cast(...)(…))"
+            if isinstance(e.func, ast.Attribute) and e.func.attr in FRESH_ATTR_CALLS:
+                return f"instance of self.{e.func.attr}"
+            q = prog.resolve_expr(fi.module, e.func)
+            if q and q in prog.classes:
+                return f"constructor {q.rsplit('.', 1)[-1]}(…)"
+            if isinstance(e.func, ast.Attribute) and e.func.attr == "postprocess":
+                return fresh(fi, e.func.value, depth + 1)
+            return None
+        if isinstance(e, ast.Name) and depth < 4:
+            srcs = []
+            for st in walk_no_nested(fi.node):
+                if isinstance(st, ast.Assign) and any(isinstance(t, ast.Name) and t.id == e.id for t in st.targets):
+                    srcs.append(("assign", st.value, st))
+                elif isinstance(st, ast.For) and any(isinstance(t, ast.Name) and t.id == e.id for t in ast.walk(st.target)):
+                    srcs.append(("iter", st.iter, st))
+                elif isinstance(st, ast.comprehension) and any(isinstance(t, ast.Name) and t.id == e.id for t in ast.walk(st.target)):
+                    srcs.append(("iter", st.iter, st))
+            if not srcs:
+                return None
+            # keep the definitions that reach the use (CFG: a path from the definition to the use that passes no other definition)
+            cfg = cfg_of(fi)
+            use_nodes = set(cfg.node_of_expr(e, prog.parent))
+            def_nodes = {id(st_): set(cfg.nodes_of(st_)) for _, _, st_ in srcs if not isinstance(st_, ast.comprehension)}
+            all_defs = set().union(*def_nodes.values()) if def_nodes else set()
+            if use_nodes and all_defs:
+                kept = []
+                for kind, v, st_ in srcs:
+                    if isinstance(st_, ast.comprehension):
+                        kept.append((kind, v, st_))
+                        continue
+                    starts = [x for d_ in def_nodes[id(st_)] for x in cfg.nodes[d_].succ]
+                    if use_nodes & cfg.reachable(starts, blocked=all_defs - use_nodes):
+                        kept.append((kind, v, st_))
+                srcs = kept or srcs
+            why = []
+            for kind, v, _st in srcs:
+                if kind == "assign" and isinstance(v, ast.Subscript) and unparse(v.value) == "self.args":
+                    why.append("argument of the condition tree (deep-copied per parse, C01.R12)")
+                elif kind == "assign":
+                    w = fresh(fi, v, depth + 1)
+                    if w is None:
+                        return None
+                    why.append(w)
+                else:
+                    if unparse(v) == "self.args":
+                        why.append("argument of the condition tree (deep-copied per parse, C01.R12)")
+                    else:
+                        return None
+            return "; ".join(sorted(set(why)))
+        return None
+
+    for q, fi in sorted(prog.funcs.items()):
+        if fi.module.name not in ("sigma.conditions", "sigma.rule.detection"):
+            continue
+        for c in (x for x in ast.walk(fi.node) if isinstance(x, ast.Call) and isinstance(x.func, ast.Attribute) and x.func.attr == "postprocess"):
+            recv = c.func.value
+            loc = f"{fi.module.relpath}:{c.lineno}"
+            n += 1
+            why = fresh(fi, recv)
+            if why:
+                r.ok("C01.R14", q, f"{short(c, 80)} — receiver is {why}", loc)
+            else:
+                r.violation("C01.R14", q, short(c, 120),
+                            "postprocess() writes the parent link into an object that is shared between all references to the detection (taken from the detection map / item list without a copy): a detection referenced twice keeps the operator context of its last reference, so grouping of an expanded CIDR value and the not-equals decision are taken for the wrong branch", loc)
+    r.analysed["C01.postprocess_call_sites"] = n
+    r.floor("C01.R14", 10)
